@@ -169,6 +169,20 @@ func (c *Collector) AddExtra(k string, n int) {
 	c.mu.Unlock()
 }
 
+// AddExtraAll adds n to counter k of every collector of this process (used by the chain engine to
+// make chain halts visible in the evidence of whatever property's history ran into them).
+func AddExtraAll(k string, n int) {
+	regMu.Lock()
+	cs := make([]*Collector, 0, len(reg))
+	for _, c := range reg {
+		cs = append(cs, c)
+	}
+	regMu.Unlock()
+	for _, c := range cs {
+		c.AddExtra(k, n)
+	}
+}
+
 // Flush writes all collectors of this process into $VERIF_EV_DIR.
 func Flush() {
 	dir := os.Getenv("VERIF_EV_DIR")
